@@ -175,7 +175,9 @@ def _():
                 continue
             callee = ast.unparse(n.func)
             last = callee.split(".")[-1]
-            pure_path = callee.startswith("os.path.") and last in ("join", "dirname", "basename", "splitext", "split", "normpath", "abspath", "relpath", "expanduser")
+            # os.path functions that only compute on strings are not sinks; those that consult the file system are
+            pure_path = callee.startswith("os.path.") and last not in ("exists", "lexists", "isfile", "isdir", "islink", "ismount", "getsize", "getmtime",
+                                                                          "getatime", "getctime", "realpath", "samefile", "sameopenfile")
             is_sink = (callee in ("open", "exec", "eval", "__import__", "io.open", "compile") and callee != "compile"
                        or (callee.startswith(("os.", "shutil.", "subprocess.", "tempfile.", "pickle.", "marshal.", "gzip.", "bz2.", "lzma.", "zipfile.",
                                               "importlib.", "pathlib.", "glob.")) and not pure_path and not callee.startswith("os.environ"))
@@ -190,7 +192,7 @@ def _():
 
 
 @bounded("hostile-names-under-audit-hook", props=["C15"],
-         bound="quick: 40 generated documents whose Encoding / CMapName / usecmap / Registry-Ordering / XObject and inline-image names are hostile strings (../, absolute paths, NUL, long, separators), processed by extract_text_to_fp with output_dir under an interpreter audit hook: no open/os event may touch the planted decoy tree or leave {output dir, cmap resource dirs, interpreter's own files}; existing files are not overwritten; thorough: 600")
+         bound="quick: every combination of 5 name sources x 16 hostile names (80 generated documents) whose Encoding / CMapName / usecmap / Registry-Ordering / XObject and inline-image names are hostile strings (../, absolute paths, NUL, long, separators), processed by extract_text_to_fp with output_dir under an interpreter audit hook: no open/os event may touch the planted decoy tree or leave {output dir, cmap resource dirs, interpreter's own files}; existing files are not overwritten; thorough: 600")
 def _(tier, seed):
     import io, random, sys, tempfile, shutil, gzip as _gz, pickle as _pk
     from specs.pdfgen import build, Name, Ref, Stream
@@ -199,16 +201,19 @@ def _(tier, seed):
     hl = real_module("pdfminer.high_level")
     root = tempfile.mkdtemp(prefix="c15-")
     decoy = os.path.join(root, "decoy"); outdir = os.path.join(root, "out")
-    os.makedirs(decoy); os.makedirs(outdir)
-    for nm in ("evil", "to-unicode-evil", "to-unicode-Adobe-evil"):
-        with _gz.open(os.path.join(decoy, nm + ".pickle.gz"), "wb") as fh:
+    share = os.path.join(root, "share", "pdfminer"); sibling = os.path.join(root, "share", "pdfminer-private")
+    os.makedirs(decoy); os.makedirs(outdir); os.makedirs(share); os.makedirs(sibling)
+    for d_, nm in [(decoy, "evil"), (decoy, "to-unicode-evil"), (decoy, "to-unicode-Adobe-evil"), (sibling, "secret"), (sibling, "to-unicode-secret")]:
+        with _gz.open(os.path.join(d_, nm + ".pickle.gz"), "wb") as fh:
             fh.write(_pk.dumps({"CODE2CID": {}, "IS_VERTICAL": False, "CID2UNICHR_H": {}, "CID2UNICHR_V": {}}))
+    old_env = os.environ.get("CMAP_PATH")
+    os.environ["CMAP_PATH"] = share
     keep = os.path.join(outdir, "keep.bmp")
     open(keep, "wb").write(b"original")
     events = []
     active = [False]
     cmapdir = os.path.join(os.path.dirname(cm.__file__), "cmap")
-    allowed = (outdir, cmapdir, "/usr/share/pdfminer", sys.prefix, sys.base_prefix, "/venv", "/usr/lib", os.path.dirname(os.__file__), REPO, "/verif")
+    allowed = (outdir, cmapdir, share + os.sep, "/usr/share/pdfminer", sys.prefix, sys.base_prefix, "/venv", "/usr/lib", os.path.dirname(os.__file__), REPO, "/verif")
 
     def hook(ev, args):
         if not active[0]:
@@ -220,12 +225,12 @@ def _(tier, seed):
             if isinstance(p, str):
                 events.append((ev, os.path.abspath(p), args[1] if ev == "open" and len(args) > 1 else None))
     sys.addaudithook(hook)
-    hostile = ["../decoy/evil", decoy + "/evil", "../../decoy/evil", "evil\x00", "a/b", "..", ".", "/etc/passwd", "x" * 300, "keep", "./keep", "sub/../keep", "C:\\x", "evil"]
+    hostile = ["../pdfminer-private/secret", "/../pdfminer-private/secret", "../decoy/evil", decoy + "/evil", "../../decoy/evil", "evil\x00", "a/b", "..", ".", "/etc/passwd", "x" * 300, "keep", "./keep", "sub/../keep", "C:\\x", "evil"]
     failures, evals, distinct = [], 0, set()
     try:
-        for _ in range(n):
-            hname = rng.choice(hostile)
-            where = rng.choice(["encoding", "cmapname", "registry", "usecmap", "xobject"])
+        combos = [(w, h_) for w in ["encoding", "cmapname", "registry", "usecmap", "xobject"] for h_ in hostile]
+        extra = [(rng.choice(["encoding", "cmapname", "registry", "usecmap", "xobject"]), rng.choice(hostile) + rng.choice(["", "x", "/", "\x00"])) for _ in range(max(0, n - len(combos)))]
+        for where, hname in combos + extra:
             distinct.add((where, hname))
             pn = lambda s_: Name("".join(ch if ch.isalnum() or ch in "-_" else "#%02X" % ord(ch) for ch in s_))
             font = {"Type": Name("Font"), "Subtype": Name("Type0"), "BaseFont": Name("T"), "Encoding": Name("Identity-H"),
@@ -261,7 +266,7 @@ def _(tier, seed):
                 err = "%s: %s" % (type(e).__name__, e)
             finally:
                 active[0] = False
-            bad = [(ev, p) for ev, p, _m in events if p.startswith(decoy) or not p.startswith(allowed)]
+            bad = [(ev, p) for ev, p, _m in events if p.startswith((decoy, sibling)) or not p.startswith(allowed)]
             wrote_outside = [(ev, p) for ev, p, m in events if ev == "open" and m and any(ch in str(m) for ch in "wax+") and not p.startswith(outdir)]
             if bad or wrote_outside or open(keep, "rb").read() != b"original":
                 failures.append(dict(where=where, name=hname, events=(bad + wrote_outside)[:4], keep_intact=open(keep, "rb").read() == b"original", error=err))
@@ -272,5 +277,9 @@ def _(tier, seed):
                 os.remove(os.path.join(outdir, f))
     finally:
         active[0] = False
+        if old_env is None:
+            os.environ.pop("CMAP_PATH", None)
+        else:
+            os.environ["CMAP_PATH"] = old_env
         shutil.rmtree(root, ignore_errors=True)
     return dict(evaluations=evals, distinct=len(distinct), failures=failures)
